@@ -58,7 +58,12 @@ func (s *rstmt) Exec(args []driver.Value) (driver.Result, error) {
 }
 func (s *rstmt) Query(args []driver.Value) (driver.Rows, error) { return &rrows{}, nil }
 
-type rrows struct{ idx int }
+// text delivered as []byte lives in a buffer the driver reuses for the next row (database/sql hands a Scanner the
+// driver's own memory: "only valid until the next call to Scan")
+type rrows struct {
+	idx  int
+	bufs [][]byte
+}
 
 func (r *rrows) Columns() []string { return rsCols }
 func (r *rrows) Close() error      { return nil }
@@ -67,6 +72,15 @@ func (r *rrows) Next(dest []driver.Value) error {
 		return io.EOF
 	}
 	copy(dest, rsRows[r.idx])
+	if r.bufs == nil {
+		r.bufs = make([][]byte, len(dest))
+	}
+	for c, v := range dest {
+		if b, ok := v.([]byte); ok && c < len(r.bufs) {
+			r.bufs[c] = append(r.bufs[c][:0], b...)
+			dest[c] = r.bufs[c]
+		}
+	}
 	r.idx++
 	return nil
 }
@@ -202,6 +216,64 @@ func TestQVSQLRoundtrip(t *testing.T) {
 					want = append(want, fv[r], bv[r])
 					if rowText(ex.args) != rowText(want) {
 						rp.fail("C19 ToSQL: arguments of the INSERT for a row", fmt.Sprintf("%s/%s row %d: got %s want %s", fr.name, d.name, k, rowText(ex.args), rowText(want)))
+					}
+				}
+			})
+		}
+	}
+
+	// wide frames: positional markers beyond one digit ($10, $11, ...) and the column list, for every dialect
+	for _, ncols := range []int{9, 10, 11, 12, 27} {
+		data := map[string]interface{}{}
+		var names []string
+		for c := 0; c < ncols; c++ {
+			n := fmt.Sprintf("c%02d", c)
+			names = append(names, n)
+			data[n] = []int{c, 100 + c}
+		}
+		wide := qframe.New(data, newqf.ColumnOrder(names...))
+		for _, incr := range []bool{false, true} {
+			ncols, incr := ncols, incr
+			guard("C19 ToSQL wide", func() {
+				rp.evals++
+				var marks []string
+				for c := 0; c < ncols; c++ {
+					if incr {
+						marks = append(marks, fmt.Sprintf("$%d", c+1))
+					} else {
+						marks = append(marks, "?")
+					}
+				}
+				fns := []qsql.ConfigFunc{qsql.Table("t")}
+				if incr {
+					fns = append(fns, qsql.Incrementing())
+				}
+				want := "INSERT INTO t (" + strings.Join(names, ",") + ") VALUES (" + strings.Join(marks, ",") + ");"
+				rsMu.Lock()
+				rsExecs = nil
+				rsMu.Unlock()
+				tx, _ := db.Begin()
+				err := wide.ToSQL(tx, fns...)
+				tx.Commit()
+				if err != nil {
+					rp.fail("C19 ToSQL reports an error on a healthy store", err.Error())
+					return
+				}
+				if len(rsExecs) != 2 {
+					rp.fail("C19 ToSQL: number of INSERT statements differs from the number of rows", fmt.Sprintf("wide %d: %d statements for 2 rows", ncols, len(rsExecs)))
+					return
+				}
+				for k, ex := range rsExecs {
+					if ex.q != want {
+						rp.fail("C19 ToSQL: statement text (wide frame)", fmt.Sprintf("%d columns incrementing=%v: got %q want %q", ncols, incr, ex.q, want))
+					}
+					for c := 0; c < ncols && c < len(ex.args); c++ {
+						if ex.args[c] != driver.Value(int64(c+100*k)) {
+							rp.fail("C19 ToSQL: arguments of the INSERT for a row", fmt.Sprintf("wide %d row %d arg %d: got %v", ncols, k, c, ex.args[c]))
+						}
+					}
+					if len(ex.args) != ncols {
+						rp.fail("C19 ToSQL: arguments of the INSERT for a row", fmt.Sprintf("wide %d row %d: %d arguments", ncols, k, len(ex.args)))
 					}
 				}
 			})
@@ -441,7 +513,7 @@ func TestQVSQLRoundtrip(t *testing.T) {
 	}
 	fmt.Printf("QV-SAMPLE resultset=%q\n", "x: NULL, 11, 12 with companion column c")
 	fmt.Printf("QV-BOUNDED evaluations=%d distinct=%d exhaustive=true bound=%q rule=%q\n", rp.evals, rp.evals,
-		"ToSQL: 5 derivations of a 4-row frame with all five column types (nulls, NaN, -Inf, MaxInt64, quotes in strings) x 5 dialect configurations; ReadSQL: result sets of 3 rows, one column of each driver value type (int64, float64, bool, string, []byte) x every NULL placement (8) x with/without a companion column; coercions and precision; store -> read back for the 5 derivations",
+		"ToSQL: 5 derivations of a 4-row frame with all five column types (nulls, NaN, -Inf, MaxInt64, quotes in strings) x 5 dialect configurations; integer frames of 9, 10, 11, 12 and 27 columns x positional / question-mark markers; ReadSQL: result sets of 3 rows, one column of each driver value type (int64, float64, bool, string, []byte delivered in a buffer the driver reuses for the next row) x every NULL placement (8) x with/without a companion column; coercions and precision; store -> read back for the 5 derivations",
 		"every case is distinct")
 	if len(rp.failed) > 0 {
 		t.Fail()
